@@ -18,6 +18,78 @@ pub enum C08Case {
     /// split_off(i) (in place) when `consume` is false, split(i) (by value) otherwise; i <= len
     Split { a: Operand, i: usize, consume: bool },
     FirstLast { a: Operand },
+    /// A vector longer than 2^31 / 2^32 bits (half a gigabyte of lazily mapped zero pages), given
+    /// by its length and the positions of its few set bits; only operations whose cost does not
+    /// depend on the length: first/last/get at the top, a short copy_range window, split_off of a
+    /// short tail. `heap_bv`: a `Bv` instead of a `Bvd`.
+    Giant { len: usize, ones: Vec<usize>, kind: GiantKind, heap_bv: bool },
+}
+
+#[derive(Clone, Debug, Hash, Serialize, Deserialize)]
+pub enum GiantKind {
+    FirstLast,
+    /// copy_range(s..e), e - s <= 8192
+    Window { s: usize, e: usize },
+    /// split_off(i), len - i <= 8192
+    Tail { i: usize },
+}
+
+fn giant_check<T: Subject>(len: usize, ones: &[usize], kind: &GiantKind) -> Result<bool, Violation> {
+    let words = len / 64 + 1;
+    // skip (not a violation) where half a gigabyte of address space cannot be reserved
+    let mut probe: Vec<u64> = Vec::new();
+    if probe.try_reserve_exact(words).is_err() {
+        return Ok(false);
+    }
+    drop(probe);
+    let bit_at = |i: usize| ones.contains(&i);
+    let window = |s: usize, e: usize| Bits((s..e).map(bit_at).collect());
+    let r: Result<Result<(), Violation>, String> = catch(|| {
+        let mut v = T::zeros(len);
+        for &p in ones {
+            v.set(p, bit(true));
+        }
+        ensure!(v.len() == len, "giant/len", "zeros({}) has length {}", len, v.len());
+        match kind {
+            GiantKind::FirstLast => {
+                let (fi, la) = (v.first().map(unbit), v.last().map(unbit));
+                ensure!(fi == Some(bit_at(0)), "giant/first", "first() of a {}-bit vector = {:?}, bit 0 is {}", len, fi, bit_at(0));
+                ensure!(la == Some(bit_at(len - 1)), "giant/last", "last() of a {}-bit vector = {:?}, bit {} is {}", len, la, len - 1, bit_at(len - 1));
+                for &p in ones {
+                    ensure!(unbit(v.get(p)), "giant/get", "get({}) of a {}-bit vector is Zero after set", p, len);
+                    if p + 1 < len && !bit_at(p + 1) {
+                        ensure!(!unbit(v.get(p + 1)), "giant/get", "get({}) of a {}-bit vector is One", p + 1, len);
+                    }
+                }
+                Ok(())
+            }
+            GiantKind::Window { s, e } => {
+                let w = v.copy_range(*s..*e);
+                crate::battery::battery(&w, &window(*s, *e), crate::battery::Strength::Light, "giant/copy_range").map_err(|mut x| {
+                    x.msg = format!("copy_range({}..{}) of a {}-bit vector with ones at {:?}: {}", s, e, len, ones, x.msg);
+                    x
+                })
+            }
+            GiantKind::Tail { i } => {
+                let t = v.split_off(*i);
+                crate::battery::battery(&t, &window(*i, len), crate::battery::Strength::Light, "giant/split_off").map_err(|mut x| {
+                    x.msg = format!("split_off({}) of a {}-bit vector with ones at {:?}: high part: {}", i, len, ones, x.msg);
+                    x
+                })?;
+                ensure!(v.len() == *i, "giant/split_off-low-len", "after split_off({}) the low part has length {}", i, v.len());
+                if *i > 0 {
+                    let la = v.last().map(unbit);
+                    ensure!(la == Some(bit_at(*i - 1)), "giant/split_off-low-last", "after split_off({}) of a {}-bit vector last() = {:?}, bit {} is {}", i, len, la, i - 1, bit_at(i - 1));
+                }
+                Ok(())
+            }
+        }
+    });
+    match r {
+        Ok(Ok(())) => Ok(true),
+        Ok(Err(v)) => Err(v),
+        Err(p) => Err(Violation { sig: "giant/panic".into(), msg: format!("{:?} on a {}-bit vector with ones at {:?} panicked: {}", kind, len, ones, p) }),
+    }
 }
 
 pub struct C08;
@@ -28,7 +100,7 @@ impl Property for C08 {
         "C08"
     }
     fn rule(&self) -> String {
-        "Cases: copy_range(s..e) with s<=e<=len; split_off(i)/split(i) with i<=len; first()/last(); subject of any zoo type/length/provenance (for Bv: inline and heap-mode sources via the long-then-truncated and spare-capacity provenances). Enumerated: every (s,e) for n<=40 (quick)/200 (thorough) with three value classes on all 20 types (includes s=e and e=n); all values for n<=8 with every (s,e); every split point for every n<=min(C,140)/320. Oracle: list slice; result passes the observer battery; source unchanged (battery); appending the high part to the low part rebuilds the original. Non-trivial: copy_range with 0<s, e<n, s not word-aligned and the slice crossing a storage-word boundary; split with 0<i<n not word aligned. Distinct by hash of the case.".into()
+        "Cases: copy_range(s..e) with s<=e<=len; split_off(i)/split(i) with i<=len; first()/last(); subject of any zoo type/length/provenance (for Bv: inline and heap-mode sources via the long-then-truncated and spare-capacity provenances). Giant vectors (2^31+69 and 2^32+77 bits, Bvd and heap Bv, a few set bits): first/last/get at the top, short copy_range windows (also across bit 2^32) and split_off of short tails. Long vectors: every length 321..2600 (thorough 8300), 1343..8200 bits on Bvd/Bv, the 70 400-bit fixed type at 7 lengths and a geometric ladder of lengths around every power of two from 2^14 to 2^21 (thorough 2^24) bits, each with 13 split points and windows around word, 4096-bit and 2^16 boundaries. Enumerated: every (s,e) for n<=40 (quick)/200 (thorough) with three value classes on all 20 types (includes s=e and e=n); all values for n<=8 with every (s,e); every split point for every n<=min(C,140)/320. Oracle: list slice; result passes the observer battery; source unchanged (battery); appending the high part to the low part rebuilds the original. Non-trivial: copy_range with 0<s, e<n, s not word-aligned and the slice crossing a storage-word boundary; split with 0<i<n not word aligned. Distinct by hash of the case.".into()
     }
     fn random_cases(&self, tier: Tier) -> u64 {
         tier.pick(200000, 6400000)
@@ -56,7 +128,7 @@ impl Property for C08 {
     }
     fn enumerate(&self, tier: Tier, sh: &mut Shard, f: &mut dyn FnMut(C08Case) -> bool) {
         let nmax = tier.pick(40, 200);
-        for t in 0..NT {
+        for t in ROUTINE_TIDS {
             let c = fixed_cap(t).unwrap_or(nmax).min(nmax);
             for n in 0..=c {
                 if !sh.mine() {
@@ -109,8 +181,67 @@ impl Property for C08 {
                 }
             }
         }
+        // the 70 400-bit fixed type (t = TID_HUGE) and a geometric ladder of lengths up to megabits
+        // on the unbounded types: split points and windows around word, 4096-bit and 2^16 boundaries
+        let mut long: Vec<(Tid, usize)> = HUGE_TYPE_LENS.iter().map(|&n| (TID_HUGE, n)).collect();
+        long.extend(ladder_lengths(tier));
+        for (t, n) in long {
+            if !sh.mine() {
+                continue;
+            }
+            let a = dense_value(n);
+            for (j, i) in [0usize, 1, 63, 64, 65, 4099, 65535, 65536, 65541, n / 2 + 3, n.saturating_sub(65), n - 1, n].into_iter().enumerate() {
+                if i > n {
+                    continue;
+                }
+                if !f(C08Case::Split { a: Operand::canon(t, a.clone()), i, consume: (j + n) % 2 == 0 }) {
+                    return;
+                }
+                for e in [(i + 1).min(n), (i + 4097).min(n), (i + 65537).min(n), n] {
+                    if (e + j) % 2 == 0 && !f(C08Case::CopyRange { a: Operand::canon(t, a.clone()), s: i, e }) {
+                        return;
+                    }
+                }
+            }
+            let mut top = Bits::zeros(n);
+            top.0[n - 1] = true;
+            for v in [a.clone(), top] {
+                if !f(C08Case::FirstLast { a: Operand::canon(t, v) }) {
+                    return;
+                }
+            }
+        }
+        // beyond 2^31 and 2^32 bits: lengths and indices that no longer fit 31 / 32 bits
+        for len in [(1usize << 31) + 69, (1usize << 32) + 77] {
+            for heap_bv in [false, true] {
+                if !sh.mine() {
+                    continue;
+                }
+                let top = len - 1;
+                // (the index of the top bit reduced modulo 2^31 / 2^32 is a set bit in the list whose top
+                // bit is clear, and a clear bit in the list whose top bit is set)
+                let low = top & ((1usize << 31) - 1);
+                let mut second = vec![0, low, top & 0xFFFF_FFFF, (1 << 31) + 3, top - 3, top - 70, top - 4100];
+                second.retain(|&p| p != top);
+                second.sort();
+                second.dedup();
+                let lists: Vec<Vec<usize>> = vec![vec![top, 5], second];
+                for ones in lists {
+                    let mut kinds = vec![GiantKind::FirstLast, GiantKind::Tail { i: len - 71 }, GiantKind::Window { s: len - 4200, e: len }, GiantKind::Window { s: 70, e: 150 }];
+                    if len > (1 << 32) {
+                        kinds.push(GiantKind::Window { s: (1 << 32) - 70, e: (1 << 32) + 70 });
+                        kinds.push(GiantKind::Tail { i: (1 << 32) + 5 });
+                    }
+                    for kind in kinds {
+                        if !f(C08Case::Giant { len, ones: ones.clone(), kind, heap_bv }) {
+                            return;
+                        }
+                    }
+                }
+            }
+        }
         let smax = tier.pick(140, 320);
-        for t in 0..NT {
+        for t in ROUTINE_TIDS {
             let c = fixed_cap(t).unwrap_or(smax).min(smax);
             for n in 0..=c {
                 if !sh.mine() {
@@ -207,6 +338,18 @@ impl Property for C08 {
                 st.class(a.prov.class());
                 st.class_if(*i == 0 || *i == n, "split at an end");
                 st.note(case, *i > 0 && *i < n && i % w != 0);
+                Ok(())
+            }
+            C08Case::Giant { len, ones, kind, heap_bv } => {
+                ensure!(*len > 8192 && ones.iter().all(|p| p < len), "bad-case", "giant case with a set bit beyond the length");
+                match kind {
+                    GiantKind::Window { s, e } => ensure!(s <= e && e <= len && e - s <= 8192, "bad-case", "giant window too wide"),
+                    GiantKind::Tail { i } => ensure!(i <= len && len - i <= 8192, "bad-case", "giant tail too long"),
+                    GiantKind::FirstLast => {}
+                }
+                let ran = if *heap_bv { giant_check::<Bv>(*len, ones, kind)? } else { giant_check::<Bvd>(*len, ones, kind)? };
+                st.class(if ran { "giant vector (> 2^31 bits)" } else { "giant vector skipped: address space not available" });
+                st.note(case, ran);
                 Ok(())
             }
             C08Case::FirstLast { a } => {
